@@ -237,6 +237,9 @@ def onResPQ {Ct} (P : XP Ct) (cfg : CCfg) (t : CTape) : Msg Ct → CState × Opt
       | none => (.failed .noKey, none)
       | some fp =>
         if pq > pqMax then (.failed .badPQ, none)
+        -- pq ≤ 1 or prime cannot be decomposed (`pq.Cmp(big.NewInt(1)) <= 0 || pq.ProbablyPrime(0)`;
+        -- the primality oracle is exact on this range)
+        else if pq ≤ 1 ∨ P.isPrime pq = true then (.failed .badPQ, none)
         else match P.factor pq with
           | none => (.failed .factor, none)
           | some (p, q) =>
